@@ -4,6 +4,7 @@ import (
 	"context"
 	"errors"
 	"fmt"
+	"math"
 	"strconv"
 	"strings"
 	"time"
@@ -40,13 +41,44 @@ const (
 	tAny
 )
 
-var numNames = []string{"n1", "n2", "n3", "n4"}
+var numNames = []string{"n1", "n2", "n3", "n4", "n1", "n2", "fz", "fnz"}
 var strNames = []string{"s1", "s2", "s3"}
 var localNames = []string{"$a", "$b", "$c"}
 
 func (g *gen) pick(xs []string) string { return xs[g.s.Intn(len(xs))] }
 
+// genDeep: shapes whose evaluation and parsing recurse deeply - a long
+// left-nested chain of one operator, deep parentheses, deeply nested calls or
+// arrays. Real formulas look like this ("sum of 200 terms").
+func genDeep(s *Stream, cfg genCfg) string {
+	n := 20 + s.Intn(cfg.maxNodes*6)
+	leaf := func() string {
+		return []string{"1", "n1", "2.5", "n2", "o1.a", "$a", "7", "n3"}[s.Intn(8)]
+	}
+	switch s.Intn(5) {
+	case 0, 1:
+		op := []string{" + ", " + ", " - ", " * ", " || "}[s.Intn(5)]
+		parts := make([]string, n)
+		for i := range parts {
+			parts[i] = leaf()
+		}
+		return strings.Join(parts, op)
+	case 2:
+		d := n / 3
+		return strings.Repeat("(", d) + leaf() + " + " + leaf() + strings.Repeat(")", d)
+	case 3:
+		d := n / 4
+		return strings.Repeat("abs(", d) + leaf() + strings.Repeat(")", d)
+	default:
+		d := n / 4
+		return strings.Repeat("[", d) + leaf() + strings.Repeat("]", d)
+	}
+}
+
 func genFormula(s *Stream, cfg genCfg) string {
+	if cfg.maxNodes >= 20 && s.Intn(14) == 0 {
+		return genDeep(s, cfg)
+	}
 	g := &gen{s: s, cfg: cfg, budget: 1 + s.Intn(cfg.maxNodes)}
 	var parts []string
 	n := 1
@@ -405,7 +437,7 @@ func genDataSpec(s *Stream) dataSpec {
 		d.Nums = append(d.Nums, s.Intn(2000)-1000)
 	}
 	for i := 0; i < 8; i++ {
-		d.Flags = append(d.Flags, s.Intn(4))
+		d.Flags = append(d.Flags, s.Intn(8))
 	}
 	return d
 }
@@ -441,8 +473,19 @@ func (d dataSpec) num(i int) interface{} {
 		return float64(v) / 8
 	case 2:
 		return decimal.WithContext(decimal.Context128).SetMantScale(int64(v), 2)
-	default:
+	case 3:
 		return int64(v) * 1000003
+	case 4: // floating-point zeros of either sign
+		if v < 0 {
+			return math.Copysign(0, -1)
+		}
+		return float64(0)
+	case 5:
+		return float32(v) / 4
+	case 6:
+		return int32(v)
+	default:
+		return float64(v % 7) // small integral floats: the same value in many data maps
 	}
 }
 
@@ -458,6 +501,7 @@ func (d dataSpec) build(log *hostLog, loc *time.Location) map[string]interface{}
 		"n1": d.num(0), "n2": d.num(1), "n3": d.num(2), "n4": d.num(3),
 		"s1": strs[(d.Nums[4]+1000)%len(strs)], "s2": strs[(d.Nums[5]+1000)%len(strs)], "s3": strs[(d.Nums[6]+1000)%len(strs)],
 		"b1": d.Flags[0]%2 == 0,
+		"fz": float64(0), "fnz": math.Copysign(0, -1),
 		"z1": nil,
 		"t1": time.Unix(int64(d.Nums[0])*86400*30+int64(d.Nums[1])*977, int64(d.Nums[2]+1000)*1000).In(loc),
 		"o1": map[string]interface{}{
